@@ -25,6 +25,7 @@
 #include "stir/ViewSegmentNumbers.h"
 #include "stir/ExamInfo.h"
 #include <map>
+#include <set>
 #include <unistd.h>
 #include <cstdio>
 
@@ -52,6 +53,23 @@ const double TOL_GROUPING = 1e-4;  // other grouping with an attenuation member 
 const double TOL_GEB = 3e-6;       // get_bin_efficiency vs e
 const double TOL_ATT = 1e-4;       // attenuation factors vs explicit matrix, as the design states
 const double TOL_EXACT_REF = 3e-6; // e vs reference for the classes without projector
+
+//! exclusions of known findings applied in the current case (each signature counted once per case under excluded_known)
+std::set<std::string> g_excluded;
+inline void
+excluded(const std::string& sig)
+{
+  if (g_excluded.insert(sig).second)
+    {
+      stats().count("excluded:" + sig);
+      if (g_excluded.size() == 1)
+        stats().excluded_known++;
+    }
+}
+const char* const SIG_F1 = "C13:F1:components:bins_outside_symmetric_fan";
+const char* const SIG_F3 = "C13:F3:components:is_trivial_with_zero_efficiency_bins";
+const char* const SIG_F4 = "C13:F4:attenuation_member:tof_mashed_to_one_bin";
+const char* const SIG_F5 = "C13:F5:components:block_factors_same_block_pair";
 
 //! an inconsistency noticed by the harness itself: never a "rejected configuration"
 struct HarnessError : std::logic_error
@@ -292,6 +310,8 @@ build(const json& s, Env& env, const Flags& fl)
         do_geo = false;
       // allocate(): BlockData3D(nb_ax, nb_tr, nb_ax-1, nb_tr-1): FanProjData constructor asserts an even "ring" size; it has no
       // cell for a block with itself, which apply_block_norm would index for two detectors of one block (see C20 notes, O2)
+      if (do_block && B.nb_tr >= 2 && B.nb_tr % 2 == 0 && !no_exclude && F.new_half_fan > B.nphys / 2 - B.p_tr)
+        excluded(SIG_F5); // switched off only because of the finding (an odd number of blocks is a documented precondition)
       if (!(B.nb_tr >= 2 && B.nb_tr % 2 == 0 && (no_exclude || F.new_half_fan <= B.nphys / 2 - B.p_tr)))
         do_block = false;
       if (!do_eff && !do_geo && !do_block)
@@ -365,6 +385,7 @@ build(const json& s, Env& env, const Flags& fl)
               b.e[std::size_t(i)] = 0.;
               b.skip[std::size_t(i)] = 1;
               stats().count("components: bins outside the fan (finding F1, excluded)");
+              excluded(SIG_F1);
               continue;
             }
           b.e[std::size_t(i)] = e;
@@ -568,6 +589,7 @@ bin_str(const Bin& b)
 Result
 check(const json& c)
 {
+  g_excluded.clear();
   Env env{ c, {}, {}, {}, {}, {}, {}, {} };
   try
     {
@@ -609,7 +631,7 @@ check(const json& c)
   if (!no_exclude && tof && env.pdi_data->get_num_tof_poss() == 1 && contains_kind(spec, "atten"))
     {
       // finding F4 (work/notes/C13_findings.md): excluded by construction in the generator; a hand-made case is not decided
-      stats().count("excluded: attenuation member with data mashed to one TOF bin (finding F4)");
+      excluded(SIG_F4);
       return Result::reject("excluded class: known finding F4");
     }
 
@@ -815,6 +837,7 @@ check(const json& c)
               {
                 // finding F3: components report trivial although virtual-crystal (and outside-fan) bins have efficiency 0
                 stats().count("is_trivial but zero-efficiency bins (finding F3, excluded)");
+                excluded(SIG_F3);
                 continue;
               }
             if (R.exact_unit)
@@ -1056,7 +1079,11 @@ gen(Src& s, int size)
       if (att && !no_exclude && p["tof_mash"].get<int>() > 0 && p["tof_mash"].get<int>() == sc->get_max_num_timing_poss())
         // finding F4 (excluded by construction): TOF data mashed to a single TOF bin pass the TOF test of
         // BinNormalisationFromAttenuationImage::set_up, and the projector then applies the TOF kernel to the attenuation integral
-        p["tof_mash"] = 0;
+        {
+          p["tof_mash"] = 0;
+          stats().count(std::string("excluded:") + SIG_F4 + " (in the generator)");
+          stats().excluded_known++;
+        }
       c["pdi"] = p;
       long bins = 0;
       try
@@ -1131,7 +1158,7 @@ known_signature(const json& c)
   const json& sc = c["scanner"];
   if (contains_kind(c["norm"], "atten") && sc.contains("tof_poss") && sc["tof_poss"].get<int>() > 0
       && c["pdi"]["tof_mash"].get<int>() == sc["tof_poss"].get<int>())
-    return "C13:attenuation_member:tof_mashed_to_one_bin";
+    return SIG_F4;
   return "";
 }
 
